@@ -176,6 +176,8 @@ def mk(op, ty, *args):
             return a
         if a.op == 'bitcast' and a.args[0].ty == ty:
             return a.args[0]
+        if a.op == 'ic' and is_f(ty):
+            return fc(ty, decode_bits(ty, a.args[0]))
     elif op == 'fneg':
         (a,) = args
         if a.op == 'fc' and isinstance(a.args[0], Fraction) and a.args[0] != 0:
@@ -204,6 +206,31 @@ def mk(op, ty, *args):
         if a.id > b.id:
             args = (b, a)
     return _raw(op, ty, args)
+
+
+def decode_bits(ty, bits):
+    """IEEE / x87 bit pattern -> fc payload"""
+    if ty == 'f80':
+        s_ = (bits >> 79) & 1
+        e = (bits >> 64) & 0x7FFF
+        m = bits & ((1 << 64) - 1)
+        if e == 0x7FFF:
+            return 'nan' if m & ((1 << 63) - 1) else ('-inf' if s_ else 'inf')
+        v = Fraction(m, 1 << 63) * Fraction(2) ** ((e if e else 1) - 16383)
+    else:
+        eb, mb, bias = (8, 23, 127) if ty == 'f32' else (11, 52, 1023)
+        s_ = (bits >> (eb + mb)) & 1
+        e = (bits >> mb) & ((1 << eb) - 1)
+        m = bits & ((1 << mb) - 1)
+        if e == (1 << eb) - 1:
+            return 'nan' if m else ('-inf' if s_ else 'inf')
+        if e == 0:
+            v = Fraction(m, 1 << mb) * Fraction(2) ** (1 - bias)
+        else:
+            v = (1 + Fraction(m, 1 << mb)) * Fraction(2) ** (e - bias)
+    if v == 0:
+        return '-0' if s_ else Fraction(0)
+    return -v if s_ else v
 
 
 def negate(c):
